@@ -97,7 +97,7 @@ type cliCall struct {
 var multiOps = map[string]bool{"RemoveGapSites": true, "RemoveCharacterSites": true, "RemoveMajorityCharacterSites": true,
 	"RemoveGapSeqs": true, "RemoveCharacterSeqs": true, "ReverseComplement": true, "Sort": true, "Consensus": true,
 	"DiffWithFirst": true, "ReplaceMatchChars": true, "Translate": true, "TranslateByReference": true, "Deduplicate": true,
-	"Compress": true, "Mask": true, "MaskOccurences": true, "MaskUnique": true, "SubAlign": true, "RefCoordinates": true,
+	"Compress": true, "Mask": true, "MaskPositions": true, "MaskOccurences": true, "MaskUnique": true, "SubAlign": true, "RefCoordinates": true,
 	"Replace": true, "AppendSeqIdentifier": true, "TrimSequences": true, "ShuffleSequences": true, "Swap": true,
 	"Recombine": true, "Mutate": true, "AddGaps": true, "Sample": true, "SelectSites": true, "RefSites": true,
 	"InversePositions": true, "Transpose": true, "CodonAlign": true, "InverseCoordinates": true}
@@ -964,6 +964,27 @@ func (c *cliFront) plan(h *heapRun, o *obj, st Step) (*cliCall, string) {
 			return nil, "repl"
 		}
 		argv := []string{"mask", "--start=" + strconv.Itoa(ai(a, "start")), "--length=" + strconv.Itoa(ai(a, "len")), "--replace=" + string(repl)}
+		if len(ref) != 0 {
+			argv = append(argv, "--ref-seq="+string(ref))
+		}
+		if ab(a, "nogap") {
+			argv = append(argv, "--no-gaps")
+		}
+		if ab(a, "noref") {
+			argv = append(argv, "--no-ref")
+		}
+		return &cliCall{argv: argv}, ""
+	case "MaskPositions":
+		ref, repl := abytes(a, "ref"), abytes(a, "repl")
+		pos := aints(a, "pos")
+		if !needsAlign() || (len(ref) != 0 && !printable(ref)) || !printable(repl) || len(pos) == 0 {
+			return nil, "repl"
+		}
+		ps := []string{}
+		for _, x := range pos {
+			ps = append(ps, strconv.Itoa(x))
+		}
+		argv := []string{"mask", "--pos=" + strings.Join(ps, ","), "--replace=" + string(repl)}
 		if len(ref) != 0 {
 			argv = append(argv, "--ref-seq="+string(ref))
 		}
